@@ -78,6 +78,16 @@ Theorem C08_context_nearest_ancestor : forall b ops o ty,
 Proof. exact r_context. Qed.
 Print Assumptions C08_context_nearest_ancestor.
 
+(** take_context / update_context act on the owner holding the binding that use_context returns *)
+Theorem C08_context_provider_holds_binding : forall b ops o ty,
+  use_ctx (final_core b ops) o ty =
+  match provider (final_core b ops) o ty with
+  | Some p => ctx_at (final_core b ops) p ty
+  | None => None
+  end.
+Proof. exact r_provider. Qed.
+Print Assumptions C08_context_provider_holds_binding.
+
 (** after all scopes are gone no arena entries remain *)
 Theorem C08_no_leak : forall b ops,
   let c := final_core b ops in
